@@ -672,6 +672,29 @@ func loadRejectsIncompleteFiles() bool {
 		}
 		return true
 	})
+	// ... and the "something more" (hasAllNumbers) looks at every number of the persisted form:
+	// the Paillier key (N, LambdaN, PhiN), NTildei, H1i, H2i and the proof numbers Alpha, Beta, P, Q.
+	need := map[string]bool{"N": false, "LambdaN": false, "PhiN": false, "NTildei": false, "H1i": false,
+		"H2i": false, "Alpha": false, "Beta": false, "P": false, "Q": false}
+	for _, d := range file.Decls {
+		fn, ok := d.(*ast.FuncDecl)
+		if !ok || fn.Name.Name != "hasAllNumbers" || fn.Body == nil {
+			continue
+		}
+		ast.Inspect(fn.Body, func(n ast.Node) bool {
+			if sel, ok := n.(*ast.SelectorExpr); ok {
+				if _, want := need[sel.Sel.Name]; want {
+					need[sel.Sel.Name] = true
+				}
+			}
+			return true
+		})
+	}
+	for _, seen := range need {
+		if !seen {
+			found = false
+		}
+	}
 	return found
 }
 
